@@ -512,6 +512,11 @@ class Check:
                     continue
                 seen.add(sig)
                 log("violation %s: %s" % (sig, detail))
+                try:   # the replay file's content goes to the log too (the file may not survive the sandbox)
+                    txt = json.dumps(json.load(open(path)).get("replay"), separators=(",", ":"))
+                    log("violation data (%s): %s" % (os.path.basename(path), txt[:12000]))
+                except Exception:
+                    pass
                 print("VIOLATION property=%s replay=%s" % (self.prop, path), flush=True)
             return 1
         log("%s %s: held on everything explored (%.1fs)" % (self.prop, self.tier, wall))
